@@ -570,32 +570,12 @@ impl<'r, 'c, 's, W: Write> DatumSerializer<'r, 'c, 's, W> {
 								is too large to fit in an i128. This is unsupported.",
 						)
 					})?;
-				let bytes = n.to_be_bytes();
-				let buf = match decimal.repr {
-					DecimalRepr::Bytes => {
-						let mut start = 0;
-						while start < bytes.len() - 1 && bytes[start] == 0 {
-							start += 1;
-						}
-						let buf = &bytes[start..];
-						self.state
-							.writer
-							.write_varint::<i64>(buf.len().try_into().map_err(|_| {
-								SerError::new(
-									"Buffer len does not fit i64 for encoding as bytes size",
-								)
-							})?)
-							.map_err(SerError::io)?;
-						buf
-					}
-					DecimalRepr::Fixed(ref fixed) => {
-						let start = bytes.len().checked_sub(fixed.size).ok_or_else(|| {
-							SerError::custom("Decimals of size larger than 16 are not supported")
-						})?;
-						&bytes[start..]
-					}
-				};
-				self.state.writer.write_all(buf).map_err(SerError::io)
+				decimal::serialize_unscaled(
+					self.state,
+					decimal::DecimalMode::Regular(decimal),
+					n,
+					&[],
+				)
 			}
 			SchemaNode::Enum(e) => {
 				let discriminant: i64 = num.try_into().map_err(|_| {
